@@ -368,7 +368,7 @@ def run(chk):
         cases += [l.strip() for l in open(corpus) if l.strip() and not l.startswith('#')]
     nfixed = len(cases)
     rng = chk.rng('items')
-    nrand = 8000 if quick else 120000
+    nrand = 15000 if quick else 120000
     for i in range(nrand):
         cases.append(gen_case(rng, rng.choice([1, 2, 3, 5, 8, 12, 20, 30])))
     chk.log('%d cases (%d boundary/corpus, %d random)' % (len(cases), nfixed, nrand))
